@@ -5,7 +5,8 @@ invariance monitor (swap, negation, left / right multiplication) and triangle
 monitor over triples.  Rotations are built by the harness."""
 import numpy as np
 
-from .. import forms, gens
+from .. import forms as vforms
+from .. import gens
 from ..core import Case, call
 from ..ref import quat as rq
 
@@ -102,15 +103,15 @@ def check_whole(case, ctx):
         out = call(lambda: float(fn(R1.copy(), R2.copy())))
         if ctx.returned(out, route=name):
             ctx.le("equals its closed form in the relative angle", abs(out.value - CLOSED[name](t)), tol_for(name, t), {"t": t, "d": out.value}, route=name)
-        forms.invariant(ctx, name, lambda a, b: fn(a, b), [R1, R2])
+        vforms.invariant(ctx, name, lambda a, b: fn(a, b), [R1, R2])
     for name in QUAT:
         fn = getattr(M, name)
-        forms.invariant(ctx, name, lambda a, b: fn(a, b), [e1, e2])
+        vforms.invariant(ctx, name, lambda a, b: fn(a, b), [e1, e2])
     S1, S2 = np.array([R1, R2, R1][:k]), np.array([R2, R2, R1][:k])
     Q1, Q2 = np.array([e1, e2, e1][:k]), np.array([e2, e2, -e1][:k])
     for name in BATCH:
         fn = getattr(M, name)
-        forms.invariant(ctx, name + "[batch]", lambda a, b: fn(a, b), [S1, S2] if name in MATRIX else [Q1, Q2])
+        vforms.invariant(ctx, name + "[batch]", lambda a, b: fn(a, b), [S1, S2] if name in MATRIX else [Q1, Q2])
 
 
 def nontrivial(case):
@@ -157,12 +158,21 @@ def check_pair(case, ctx):
             out = call(lambda: fn(q1.copy(), -q1))
             if ctx.returned(out, route=name):
                 ctx.le("distance between q and -q is 0", abs(float(out.value)), 1e-7 if name in ("qcip", "qad") else 1e-14, route=name)
+    # the same float64 quaternions / matrices held in a read-only array or a strided view (a broadcast reference, a column of a log)
+    for name in MATRIX + QUAT:
+        fn = getattr(M, name)
+        vforms.invariant(ctx, name, lambda x, y: fn(x, y), [rq.refR(q1), rq.refR(q2)] if name in MATRIX else [q1.copy(), q2.copy()], lists=False, layouts=True,
+                        tol=1e-7 if name in ("qcip", "qad") else 1e-12, clause="the same values in a read-only array or a strided view give the same distance")
     # N-row inputs
     k = int(case.p["rows"])
     Q1 = np.array([q1] + [forms["left-multiplied"][0]] * (k - 1))
     Q2 = np.array([q2] + [forms["left-multiplied"][1]] * (k - 1))
     Q2[-1] *= -1.0
     check_batch_coincident(case, ctx, np.array([q1, q2, g, rq.qmul(g, q1)][:k + 1]))
+    for name in BATCH:
+        fn = getattr(M, name)
+        vforms.invariant(ctx, name + "[batch]", lambda x, y: fn(x, y), [np.array([rq.refR(x) for x in Q1]), np.array([rq.refR(x) for x in Q2])] if name in MATRIX else [Q1.copy(), Q2.copy()],
+                        lists=False, layouts=True, tol=1e-7 if name in ("qcip", "qad") else 1e-12, clause="the same values in a read-only array or a strided view give the same distance")
     for name in BATCH:
         fn = getattr(M, name)
         r = name + "[batch]"
